@@ -54,7 +54,7 @@ static bool pair_in_bound(uint32_t blocks, const std::string& a, const std::stri
 
 using History = std::vector<std::string>;
 static const char* KINDS[3] = {"ctor", "assign-empty", "assign-loaded"};
-static const char* SIDES[2] = {"copy", "source"};			  // which side is edited
+static const char* SIDES[3] = {"copy", "source", "source-before-copy"}; // which side is edited (2: the source, before the copy is made)
 static const char* ORDERS[2] = {"source-first", "copy-first"}; // which object is destroyed first
 
 static std::string hist_str(const History& h) {
@@ -375,6 +375,45 @@ static void run_scenario(const Model& m, int kind, int side, int order, const Hi
 	st.max("history_length", (long long) h.size());
 }
 
+// ---------- copying from a non-initial state: the history runs on the source BEFORE the copy is made ----------
+// The copy of the edited source must be what a twin driven through the same history is (bytes, snapshot), must not
+// cache geometry outside itself - also where the source itself is left with a stale cache by the history - and must
+// stand alone once the source is gone.
+static void run_precopy(const Model& m, int kind, const History& h, const AResult& ar, Stats& st) {
+	Ctx c{m, kind, 2, 0, h, st, scen_json(m, kind, 2, 0, h)};
+	vf::set_inflight(J(c.j).set("stage", "B").dump());
+	alarm(60);
+	st.add("evaluations");
+	st.add("scenarios_copy_of_edited_source");
+	std::unique_ptr<NifFile> S(new NifFile());
+	must_load(*S, m);
+	for (size_t i = 0; i < ar.len; i++) apply_op(*S, h[i]);
+	std::unique_ptr<NifFile> C = make_copy(kind, *S, m);
+	int k = snap::foreign_geometry_cache(*C);
+	if (k >= 0) c.viol("copy-of-edited-source:shape-geometry-cache-outside-copy", vf::strf("shape #%d of a copy made after %s caches a geometry-data pointer that is not a block of the copy", k, hist_str(h).c_str()));
+	S.reset(); // the copy must stand alone
+	if (k < 0 && !ar.cut) {
+		if (C->IsValid() != ar.valid) c.viol("copy-of-edited-source-diverges-from-twin:valid", "IsValid of the copy differs from the edited twin's");
+		else if (C->IsValid()) {
+			std::string b = s1::save(*C, true);
+			if (b != ar.bytes)
+				c.viol("copy-of-edited-source-bytes-differ-from-twin", "a copy made after " + hist_str(h) + " saves bytes that differ from a twin driven through the same history (" + snap::first_diff(b, ar.bytes) + ")");
+			Fields sn = snap::model_snapshot(*C);
+			std::string detail;
+			std::string f = snap::diff_fields(sn, ar.snap, {}, &detail);
+			if (!f.empty()) c.viol("copy-of-edited-source-snapshot-differs-from-twin:" + snap::generic_field(f), "snapshot of a copy made after " + hist_str(h) + " differs from the edited twin's (" + detail + ")");
+		}
+	}
+	else if (k < 0) {
+		// the history left the source itself with a stale cache (not a defect of copying); the copy is still saved and queried under the sanitizer
+		st.add("copy_of_edited_source_history_cut");
+		if (C->IsValid()) (void) s1::save(*C, true);
+		(void) snap::model_snapshot(*C);
+	}
+	C.reset();
+	alarm(0);
+}
+
 // ---------- a history: stage A once, then the 12 (kind, side, order) scenarios ----------
 struct Filter { int kind = -1, side = -1, order = -1; };
 // returns stage A's result through *out (for extending the history)
@@ -390,6 +429,14 @@ static bool run_history(const Model& m, const History& h, const std::set<std::st
 	for (int kind = 0; kind < 3; kind++) {
 		if (flt.kind >= 0 && flt.kind != kind) continue;
 		if (skip.count(std::string("C:") + KINDS[kind])) { st.add("scenarios_skipped_copy_faults"); continue; }
+		if (!h.empty() && (flt.side < 0 || flt.side == 2) && !skip.count("B:" + scen_id(kind, 2, 0, h))) {
+			try {
+				run_precopy(m, kind, h, ar, st);
+			} catch (std::exception& e) {
+				alarm(0);
+				st.violation(std::string("exception:") + typeid(e).name(), m.name + " " + scen_id(kind, 2, 0, h) + ": exception " + e.what(), scen_json(m, kind, 2, 0, h));
+			}
+		}
 		for (int side = 0; side < 2; side++) {
 			if (flt.side >= 0 && flt.side != side) continue;
 			for (int order = 0; order < 2; order++) {
@@ -440,7 +487,7 @@ static std::string crash_key(const vf::CrashInfo& ci) {
 }
 
 static int kind_of(const std::string& s) { for (int i = 0; i < 3; i++) if (s == KINDS[i]) return i; return -1; }
-static int side_of(const std::string& s) { for (int i = 0; i < 2; i++) if (s == SIDES[i]) return i; return -1; }
+static int side_of(const std::string& s) { for (int i = 0; i < 3; i++) if (s == SIDES[i]) return i; return -1; }
 static int order_of(const std::string& s) { for (int i = 0; i < 2; i++) if (s == ORDERS[i]) return i; return -1; }
 
 int main(int argc, char** argv) {
